@@ -190,6 +190,8 @@ pub struct Sess<'a, S: Scheme> {
     pub verifier: Verifier<S>,
     /// bytes the prover's RNG handed out during `commit`
     pub commit_rng_bytes: u64,
+    /// bytes the prover's RNG handed out during the last `prove` step
+    pub last_open_rng_bytes: u64,
 }
 
 /// Why a session could not be brought up (used by the admission oracles of C04 / C17).
@@ -358,7 +360,7 @@ impl<'a, S: Scheme> Sess<'a, S> {
         let sv = sp.fork();
         let prover = Prover { ck, polys, comms, states, sponge: sp, rng: rng_p, order };
         let verifier = Verifier { vk, comms: v_comms, sponge: sv, rng: SimRng::new(scn.seed, "verifier", 0).logged(log) };
-        Ok(Sess { scn, log: log.clone(), stats, pp_bytes, points, prover, verifier, commit_rng_bytes })
+        Ok(Sess { scn, log: log.clone(), stats, pp_bytes, points, prover, verifier, commit_rng_bytes, last_open_rng_bytes: 0 })
     }
 
     /// ground truth of the reference model
@@ -427,7 +429,7 @@ impl<'a, S: Scheme> Sess<'a, S> {
         let (qs, evals) = self.statement(op);
         let pr = &mut self.prover;
         let out = Self::prove_on(self.scn, &self.points, &pr.ck, &pr.polys, &pr.comms, &pr.states, &pr.order, op, qs, evals, &mut pr.sponge, Some(&mut pr.rng));
-        pr.rng.mark("open");
+        self.last_open_rng_bytes = pr.rng.mark("open");
         self.log.ev(&format!("prove op{} -> {} sponge={}", tag, out.kind(), pr.sponge.state_digest()));
         out
     }
